@@ -381,7 +381,8 @@ func jsonScalar(r *vc.Rand, k int, allowBad bool) jnode {
 func mapKeyText(r *vc.Rand, k int) string {
 	switch k {
 	case kString:
-		return r.Pick([]string{"", "k", "a b", "k2"})
+		// keys with the characters the query-key syntax itself uses: dots, slashes, brackets
+		return r.Pick([]string{"", "k", "a b", "k2", "a.b", "app.kubernetes.io/name", "x.y.z", "k[1]", "[", "a]b", ".", "é"})
 	case kBool:
 		return r.Pick([]string{"true", "false"})
 	case kInt32, kInt64:
